@@ -77,7 +77,10 @@ def gen_cases(tier, seed):
             if rng.random() < 0.15:
                 kw['encoding'] = rng.choice(['utf-8', 'iso-8859-1', 'utf-16', None])
         elif kind in ('eps', 'pdf'):
-            FLOATS = [(0.5, 0.25, 1.0), (0.0, 0.0, 0.0), (1.0, 1.0, 1.0), (0.1, 0.2, 0.3), (1.0, 0.0, 0.5), (0.2, 128, 0.0)]
+            # float channels 0..1 next to int channels 0..255 that compare equal to them (1 == 1.0: one is full
+            # intensity, the other 1/255)
+            FLOATS = [(0.5, 0.25, 1.0), (0.0, 0.0, 0.0), (1.0, 1.0, 1.0), (0.1, 0.2, 0.3), (1.0, 0.0, 0.5), (0.2, 128, 0.0),
+                      (1.0, 0.0, 0.0), (1, 0, 0), (0.0, 1.0, 0.0), (0, 1, 0), (1, 1, 1), (0.0, 0.0, 1.0), (0, 0, 1), (1, 0.0, 1.0)]
             if rng.random() < 0.6:
                 kw['dark'] = col(rng) if rng.random() < 0.8 else rng.choice(FLOATS)
             if rng.random() < 0.5:
